@@ -50,7 +50,7 @@ def chunk_encode(body, layout, hexcase='lower', lead_zero=False, ext=b'', traile
 
 
 def build(kind, start, headers, framing, body=b'', layout=None, trailing=b'',
-          hexcase='lower', lead_zero=False, ext=b'', trailers=(), features=None, framing_case='canonical'):
+          hexcase='lower', lead_zero=False, ext=b'', trailers=(), features=None, framing_case='canonical', te_value=b'chunked'):
     """start: (method, target, version) or (version, code, reason|None).
     headers: list of (name, value, rawline) -- rawline may carry odd spacing/casing."""
     feats = dict(features or {})
@@ -72,7 +72,7 @@ def build(kind, start, headers, framing, body=b'', layout=None, trailing=b'',
         hs.append((fc(b'Content-Length'), str(len(body)).encode(), fc(b'Content-Length') + b': ' + str(len(body)).encode()))
         wire_body = body
     elif framing == 'chunked':
-        hs.append((fc(b'Transfer-Encoding'), b'chunked', fc(b'Transfer-Encoding') + b': chunked'))
+        hs.append((fc(b'Transfer-Encoding'), te_value, fc(b'Transfer-Encoding') + b': ' + te_value))
         if layout is None:
             layout = (len(body),) if body else ()
         wire_body = chunk_encode(body, layout, hexcase, lead_zero, ext, trailers)
@@ -86,7 +86,7 @@ def build(kind, start, headers, framing, body=b'', layout=None, trailing=b'',
         'chunk_ext': bool(ext), 'chunk_trailers': bool(trailers),
         'hex_upper': hexcase != 'lower', 'lead_zero': lead_zero,
         'n_chunks': len(layout) if layout is not None else 0,
-        'trailing': bool(trailing), 'framing_case': framing_case,
+        'trailing': bool(trailing), 'framing_case': framing_case, 'te_value_case': 'lower' if te_value == b'chunked' else 'other',
     })
     return Msg(kind=kind, method=method, target=target, version=version, code=code, reason=reason,
                headers=[(n, v) for (n, v, _r) in hs], framing=framing, body=body, layout=layout,
@@ -186,6 +186,14 @@ def corpus(tier):
                                      features={'class': 'cl' if body else 'cl_zero'}))
                     out.append(build(kind, start, hsets[1], 'chunked', body, (len(body),) if body else (), trailing,
                                      framing_case=fcase, features={'class': 'chunked'}))
+    # transfer-coding names are case-insensitive too
+    for kind in ('request', 'response'):
+        start = starts(kind)[0]
+        for tev in (b'Chunked', b'CHUNKED'):
+            for body in (b'', b'abc'):
+                for trailing in (b'', b'G'):
+                    out.append(build(kind, start, hsets[1], 'chunked', body, (1, len(body) - 1) if body else (), trailing,
+                                     te_value=tev, features={'class': 'chunked'}))
     # de-duplicate by raw bytes + kind, keep first (simplest) occurrence
     seen = set()
     uniq = []
